@@ -4,5 +4,5 @@ CONSTANTS
   MaxLen = 3
   UpdKinds = {"load"}
   Nests = {"any"}
-  MatchOpts <- Opts_quick
+  MatchOpts <- Opts_q3
 INVARIANT OptionsOfThisCall
